@@ -215,6 +215,8 @@ DIRECTED = [
     "a;a;s:1:0:ab=1;b:0:p~0~/*/*/ab+u~ab+s~0~x=1;s:1:0:ab=2;b:0:u~/*/*/ab&/*/*/ab+p~0~ab;s:1:0:ab=3;u:0:ab;s:1:0:ab=4",
     # explicit GETDATA of a subscriber for what it is subscribed to (alone, in a BATCH after the SUBSCRIBE:), then updates
     "a;a;s:1:0:ab=6&ac=2;p:0:0:a*;p:1:1:ab;g:0:a*;b:0:p~0~ab@g4+g~ab@g4+s~0~x=1;s:1:0:ab=9;s:1:0:ab=1;g:0:a*&ab@g4;s:1:0:ac=3",
+    # quiet SETDATA / REMOVEDATA of a session the subscriber cannot see (it watches session 1 only): its mirror stays exact
+    "a;a;a;p:0:0:/*/1/*;s:1:0:ab=6;s:2:4:ab=7&b/c=8;b:2:r~1~b+s~0~x=1;s:1:0:ab=9;s:2:4:ab=1;r:1:0:ab",
     # unsubscribe: the client's own pruning
     "a;a;s:1:0:ab=5&ac=6;p:0:0:a*&ab;u:0:a*;s:1:0:ab=7&ac=8;u:0:ab",
     # set then remove / remove then set across one flush; nested creation; recursive removal
@@ -356,7 +358,8 @@ class CHECK(vlib.Check):
                 "server sends no removals on unsubscribe, so on its own unsubscribe the client drops what its remaining subscriptions "
                 "no longer cover",
                 "mirror_converges_partial / mirror_converges_wire hold for histories in which every change of the tree is announced (no "
-                "quiet SETDATA/REMOVEDATA; other sessions may subscribe quietly, the observer not) and an observer whose explicit GETDATA "
+                "quiet SETDATA/REMOVEDATA, except by a session below whose session node none of the observer's subscription paths "
+                "reaches: quiet_frame; other sessions may subscribe quietly, the observer not) and an observer whose explicit GETDATA "
                 "keys are subscriptions it holds at that moment (same path and filter), which batches no unsubscribe and whose SUBSCRIBE: "
                 "fields per Message have distinct non-empty paths",
                 "parameter names (Refl/Params.v): REMOVEPARAMETERS of a SUBSCRIBE: name the session does not hold as a parameter does nothing "
@@ -393,6 +396,10 @@ class CHECK(vlib.Check):
         for i in range(n // 10):
             g = Gen(rng, multi_subscribers=False, allow_quiet=True)
             out.append(("quiet", "q|" + g.case(rng.choice([6, 10, 16]), rng.choice([2, 3]))))
+        # quiet flags with several subscribers: the mirror oracle stays on for the clients that cannot see the quiet sender
+        for i in range(n // 10):
+            g = Gen(rng, multi_subscribers=True, allow_quiet=True, allow_max=False)
+            out.append(("quietmulti", "x|" + g.case(rng.choice([8, 12, 16]), rng.choice([3, 4]))))
         # several subscribers AND max-items changes: the split points of one client's updates then depend on the iteration
         # order of the pooled subscriber tables (not modelled), so these cases compare the net effect of each op's Messages
         # per client (label x) next to tree, subscriber tables, entries and mirrors; the oracle applies unchanged
